@@ -376,6 +376,46 @@ class MathShim:
         return x.__floor__() if isinstance(x, SNum) else _math.floor(x)
 
 
+def sx_pack(fmt, *vals):
+    """struct.pack for the big-endian integer formats the writers use; symbolic values give symbolic bytes"""
+    import struct
+    if not any(isinstance(v, (SInt, SNum, SBool)) for v in vals):
+        return struct.pack(fmt, *vals)
+    f = fmt.decode('ascii') if isinstance(fmt, (bytes, bytearray)) else fmt
+    if not f.startswith('>'):
+        raise Unsupported(f'pack format {f}')
+    sizes = {'B': 1, 'H': 2, 'I': 4, 'L': 4}
+    codes = []
+    num = ''
+    for ch in f[1:]:
+        if ch.isdigit():
+            num += ch
+            continue
+        if ch not in sizes:
+            raise Unsupported(f'pack format {f}')
+        codes += [ch] * (int(num) if num else 1)
+        num = ''
+    if len(codes) != len(vals):
+        raise struct.error('pack expected %d items' % len(codes))
+    out = []
+    for ch, v in zip(codes, vals):
+        n = sizes[ch]
+        if isinstance(v, int):
+            out += list(struct.pack('>' + ch, v))
+            continue
+        if isinstance(v, SNum):
+            raise Unsupported('pack of a symbolic integer term')
+        v = SInt.of(v)
+        if v.width() > 8 * n:
+            from .explore import Explorer
+            if Explorer.cur is not None:
+                Explorer.cur.side_condition('pack-value-in-range', z3.ULT(v.word(), 1 << (8 * n)))
+        bits = list(v.bits) + [0] * (8 * n - len(v.bits))
+        for k in range(n - 1, -1, -1):
+            out.append(norm(SInt(bits[8 * k:8 * k + 8])))
+    return SBytes(out)
+
+
 SHADOW = {
     'str': sx_str_t, 'int': sx_int_t, 'float': sx_float_t, 'bytearray': sx_bytearray_t, 'bytes': sx_bytes_t,
     'isinstance': sx_isinstance, 'min': sx_min, 'max': sx_max, 'sum': sx_sum, 'any': sx_any, 'all': sx_all,
